@@ -95,7 +95,20 @@ def binary_shape(f, pushed, wrap=None):
         sd = f.single_def(b[2])      # a mask bound to a name first (`let align_mask = !(rhs - 1)`): one level only
         if sd is not None and sd['kind'] == 'assign':
             b = f.rvalue_tree(sd['rv'])
-    rhs_var = b if b[0] == 'var' else next((x for x in walk(b) if isinstance(x, tuple) and x and x[0] == 'var' and x[1] == 'rhs'), None)
+    def find_rhs(tree, depth=2):
+        for x in walk(tree):
+            if isinstance(x, tuple) and x and x[0] == 'var' and x[1] == 'rhs':
+                return x
+        if depth:
+            for x in walk(tree):
+                if isinstance(x, tuple) and x and x[0] == 'var' and len(x) == 3 and isinstance(x[2], int):
+                    sd2 = f.single_def(x[2])     # `let low_bits = rhs - 1;` named first
+                    if sd2 is not None and sd2['kind'] == 'assign':
+                        r = find_rhs(f.rvalue_tree(sd2['rv']), depth - 1)
+                        if r is not None:
+                            return r
+        return None
+    rhs_var = b if b[0] == 'var' else find_rhs(b)
     db = var_def_block(f, rhs_var) if rhs_var else None
     if da is None or db is None:
         return op, False, 'lhs / rhs are not single-definition variables'
